@@ -75,7 +75,7 @@ def gen_case(rng):
         if form == 'scalar':
             c["value"] = rng.choice(cands)
         elif form == 'list':
-            c["value"] = [rng.choice(cands) for _ in range(rng.randint(1, 3))]
+            c["value"] = [rng.choice(cands) for _ in range(rng.randint(0, 3))]       # no value listed: nothing is set
         else:
             c["mask"] = np.array([rng.random() < 0.4 for _ in range(v.size)], dtype=bool).reshape(v.shape)
             if form == 'mixed':
